@@ -135,6 +135,7 @@ type AttachOpts struct {
 	DisableGC       bool
 	DisablePresence bool
 	Presence        map[string]string
+	Pre             func(d *document.Document) // local edits made before the attach request is built
 }
 
 // AttachBegin performs steps 01-02 of client.attachDocument and returns the in-flight response.
@@ -149,6 +150,9 @@ func (c *MClient) AttachBeginWith(ctx context.Context, d *document.Document, sto
 	docKey := d.Key().String()
 	a := &Att{C: c, Doc: d, DisableGC: o.DisableGC, stop: stop}
 	d.SetActor(c.ID)
+	if o.Pre != nil {
+		o.Pre(d)
+	}
 	if !o.DisablePresence {
 		if err := d.Update(func(r *json.Object, p *presence.Presence) error {
 			p.Initialize(o.Presence)
